@@ -240,6 +240,13 @@ def _seq(draw):
             op["R"] = sorted(10 ** draw(st.floats(-9.3, -7.5)) for _ in range(m))
             op["gE"] = [2 * 0.1 * 1e-5 / r for r in op["R"]]
         ops.append(op)
+        if kind == "growth" and draw(st.booleans()):
+            # a second growth query for the same phase at a neighbouring state, both keeping their caches: the curvature factors and
+            # the tie line must be those of the new state
+            op["removeCache"] = False
+            f = draw(st.sampled_from([0.8, 1.2, 1.0]))
+            op2 = dict(op, x=[[float(np.clip(v * f, lo, hi)) for v, (lo, hi) in zip(op["x"][0], cfg["x"])]], T=[float(np.clip(op["T"][0] + draw(st.sampled_from([0.0, 25.0, -25.0])), cfg["T"][0], max(cfg["T"][1], op["T"][0])))], removeCache=draw(st.booleans()))
+            ops.append(op2)
         if kind in ("D", "Dt") and draw(st.integers(0, 1)) == 1:
             # near-repeat: the same query (or the other diffusivity) at a state that differs by far less than any
             # "same state" tolerance, right after a query that kept its cache
